@@ -194,8 +194,12 @@ def run_cmd(cmd, cwd, timeout, logpath, limit=True):
                 pass
             if time.time() - t0 > timeout:
                 timed_out = True
-            elif cap_kb is not None and group_rss_kb(p.pid) > cap_kb:
-                over_mem = True
+            elif cap_kb is not None:
+                # soft cap: above it the instance survives only while the machine has memory
+                # to spare (CBMC balloons *after* solving when properties failed); hard cap 44 GB
+                rss = group_rss_kb(p.pid)
+                if rss > 44 * (1 << 20) or (rss > cap_kb and mem_available_gb() < 8):
+                    over_mem = True
             if timed_out or over_mem:
                 try:
                     os.killpg(p.pid, signal.SIGKILL)
@@ -240,10 +244,14 @@ def resolve_unwindset(h, tdir):
     logpath = os.path.join(WORK, "logs", h["name"] + ".loops.log")
     run_cmd(kani_cmd(h, tdir, cbmc_args=["--show-loops"]), KANI, 900, logpath, limit=False)
     txt = open(logpath, errors="replace").read()
-    m = re.search(r"Reading GOTO program from file (\S+)", txt)
-    if not m:
+    import glob
+
+    # the goto binary of this harness: <target>/kani/<triple>/debug/build/lmverif/<hash>/out/*<len><name>.out
+    cands = glob.glob(os.path.join(tdir, "kani", "*", "debug", "build", "lmverif", "*", "out", f"*{len(h['name'])}{h['name']}.out"))
+    if not cands:
         return None, "goto binary not found for --show-loops"
-    p = subprocess.run(["cbmc", "--show-loops", m.group(1)], capture_output=True, text=True, env=ENV)
+    gotofile = max(cands, key=os.path.getmtime)
+    p = subprocess.run(["cbmc", "--show-loops", gotofile], capture_output=True, text=True, env=ENV)
     loops = re.findall(r"Loop (\S+):\n\s+file (\S+) line (\d+) column \d+ function (.*)", p.stdout)
     out = []
     for rx, no, bound in h["unwindset"]:
@@ -296,6 +304,9 @@ def parse_log(path):
     for m in re.finditer(r"(\d+) variables, (\d+) clauses", txt):
         r["vars"] = max(r["vars"], int(m.group(1)))
         r["clauses"] = max(r["clauses"], int(m.group(2)))
+    m = re.search(r"size of program expression: (\d+) steps", txt)
+    r["ssa_steps"] = int(m.group(1)) if m else 0
+    r["unwindings"] = len(re.findall(r"^Unwinding loop ", txt, re.M))
     m = re.search(r"Generated (\d+) VCC\(s\), (\d+) remaining", txt)
     if m:
         r["vccs"] = [int(m.group(1)), int(m.group(2))]
@@ -441,7 +452,7 @@ def reserve_memory(need_gb, tag, max_wait=6 * 3600):
     while True:
         with open(os.path.join(LEDGER, "lock"), "w") as lk:
             fcntl.flock(lk, fcntl.LOCK_EX)
-            if (_ledger_sum() + need_gb <= TOTAL_GB - 8 and mem_available_gb() >= need_gb + 4) or time.time() - t0 > max_wait:
+            if (_ledger_sum() + need_gb <= TOTAL_GB - 2 and mem_available_gb() >= need_gb + 4) or time.time() - t0 > max_wait:
                 path = os.path.join(LEDGER, f"{os.getpid()}.{int(need_gb)}.{tag}")
                 open(path, "w").close()
                 return path
@@ -469,7 +480,19 @@ def run_harness(h, slot):
         release_memory(ticket)
 
 
+DEADLINE = [None]  # absolute time by which every instance of this run must have ended
+
+
 def _run_harness(h, slot):
+    if DEADLINE[0] is not None:
+        left = DEADLINE[0] - time.time()
+        if left < 20:
+            res = dict(status=None, checks=0, failed=0, failures=[], covers_total=0, covers_sat=0, symex_s=None,
+                       solver_s=0.0, vars=0, clauses=0, vccs=None, verif_s=None, undetermined=0, unreachable=0,
+                       ssa_steps=0, unwindings=0)
+            res.update(verdict="inconclusive", reason="quick-tier deadline reached before the instance could start", wall_s=0.0, log="")
+            return res
+        h = dict(h, timeout=min(h["timeout"], int(left)))
     tdir = os.path.join(WORK, f"t{slot}")
     logpath = os.path.join(WORK, "logs", h["name"] + ".log")
     extra = None
@@ -478,7 +501,7 @@ def _run_harness(h, slot):
         if err:
             res = parse_log(logpath) if os.path.exists(logpath) else {}
             res = dict(status=None, checks=0, failed=0, failures=[], covers_total=0, covers_sat=0, symex_s=None,
-                       solver_s=0.0, vars=0, clauses=0, vccs=None, verif_s=None, undetermined=0, unreachable=0)
+                       solver_s=0.0, vars=0, clauses=0, vccs=None, verif_s=None, undetermined=0, unreachable=0, ssa_steps=0, unwindings=0)
             res.update(verdict="inconclusive", reason=err, wall_s=0.0, log=logpath)
             return res
         extra = ["--unwindset", spec]
@@ -641,6 +664,9 @@ def main():
             jobs = int(args.pop(0))
     seed = int(os.environ.get("VERIF_SEED", "0"))
     t0 = time.time()
+    if tier == "quick" and os.environ.get("VERIF_NO_DEADLINE") is None:
+        # the quick tier is the check run on every change: everything must be over in < 15 min
+        DEADLINE[0] = t0 + int(os.environ.get("VERIF_QUICK_DEADLINE", "840"))
     prepare()
     allh, funcs = discover()
     write_replay_table(allh)
@@ -783,6 +809,13 @@ def main():
                 "reachability witnesses were all SATISFIED; instances are distinct by harness name (sizes/backends)"
             ),
             samples=samples,
+            # model-checking vocabulary for a *bounded* model checker: a state is one step of the
+            # unwound program in static-single-assignment form (CBMC: "size of program expression"),
+            # i.e. a symbolic program state reached by symbolic execution; a transition is one loop
+            # unwinding or one verification condition generated between such states. Both are measured.
+            states=max(1, sum(results[h["name"]].get("ssa_steps", 0) for h in hs)),
+            transitions=max(1, sum(results[h["name"]].get("unwindings", 0) + (results[h["name"]].get("vccs") or [0])[0] for h in hs)),
+            traces_validated_against_impl=sum(1 for h in hs if results[h["name"]].get("reproduced") is not None),
             obligations=sum(results[h["name"]]["checks"] for h in hs),
             discharged=sum(results[h["name"]]["checks"] - results[h["name"]]["failed"] for h in passed),
             solver_time_s=round(sum(results[h["name"]]["solver_s"] for h in hs), 1),
